@@ -375,6 +375,7 @@ fn main() {
     let mut list = false;
     let mut population_arg: usize = 0;
     let mut big_arg: usize = 0;
+    let mut big_variant: usize = 0;
     let mut print_refs = false;
     let mut expect: Option<u64> = None;
     let mut i = 2;
@@ -394,6 +395,10 @@ fn main() {
             }
             "--big" => {
                 big_arg = args[i + 1].parse().unwrap_or(0);
+                i += 2;
+            }
+            "--variant" => {
+                big_variant = args[i + 1].parse().unwrap_or(0);
                 i += 2;
             }
             "--population" => {
@@ -458,18 +463,24 @@ fn main() {
         // DIFFERENT big arguments: whatever two such calls share without synchronisation is a data
         // race for the detector, however narrow the window is on real hardware.
         let d = big_arg as i32;
-        // both threads compact a big set (different ones); some executions add a second kind
-        let mut p0 = vec![Op::CompactBig(res0_cell(r.next()), d, r.next())];
-        let mut p1 = vec![Op::CompactBig(res0_cell(r.next() | 1), d, r.next())];
-        match r.below(3) {
-            0 => {}
-            1 => p1.push(Op::UncompactTo(res0_cell(r.next()), d)),
-            _ => {
-                p0.insert(0, Op::ChildrenTo(res0_cell(r.next()), d));
-                p1.insert(0, Op::UncompactTo(res0_cell(r.next()), d - 1));
+        if big_variant == 1 {
+            // both threads trace a dense boundary (different cells): 5 * segments vertices each
+            let seg = if d >= 7 { 2048 } else { 1 << (d + 3) };
+            plans = vec![vec![Op::Boundary(res0_cell(r.next()), seg)], vec![Op::Boundary(res0_cell(r.next() | 1) ^ (1u64 << 58), seg)]];
+        } else {
+            // both threads compact a big set (different ones); some executions add a second kind
+            let mut p0 = vec![Op::CompactBig(res0_cell(r.next()), d, r.next())];
+            let mut p1 = vec![Op::CompactBig(res0_cell(r.next() | 1), d, r.next())];
+            match r.below(3) {
+                0 => {}
+                1 => p1.push(Op::UncompactTo(res0_cell(r.next()), d)),
+                _ => {
+                    p0.insert(0, Op::ChildrenTo(res0_cell(r.next()), d));
+                    p1.insert(0, Op::UncompactTo(res0_cell(r.next()), d - 1));
+                }
             }
+            plans = vec![p0, p1];
         }
-        plans = vec![p0, p1];
     }
     if contention {
         plans = contention_plans(&mut r);
